@@ -410,6 +410,7 @@ class SK(object):
         self.steps = 0
         self.decisions = None       # None: undecidable float comparisons are unsupported; list: replayed / extended fork decisions
         self.trace = []
+        self.modconst = {}              # module-level constants evaluated so far
         self.gen_stack = []             # generators of the interpreted program that are currently running (innermost last)
         self.construct = False          # a class of the package without a hook is constructed by interpreting its __init__ chain
         self.follow_deepcopy = False    # copy.deepcopy(obj) of a class-keyed object runs the class's own __deepcopy__
@@ -454,6 +455,17 @@ class SK(object):
             return ('class', (mod, name))
         if name in BUILTINS:
             return BUILTINS[name]
+        # a module-level constant (NAME = <expression> at the top level of the module): evaluated once, in the module's own scope
+        tree = self.m.tree.get(mod)
+        if tree is not None:
+            ck = (mod, name)
+            if ck in self.modconst:
+                return self.modconst[ck]
+            for st in tree.body:
+                if isinstance(st, ast.Assign) and len(st.targets) == 1 and isinstance(st.targets[0], ast.Name) and st.targets[0].id == name:
+                    v = self.ev(st.value, {'__mod__': mod, '__cls__': None})
+                    self.modconst[ck] = v
+                    return v
         raise Unsupported('name %s in module %s' % (name, mod))
 
     # ------------------------------------------------------------------ expressions
@@ -760,8 +772,10 @@ class SK(object):
             b = b._a['__iter__']
         try:
             return b[i]
-        except (IndexError, KeyError):
-            raise Violation('SK1', 'index %r out of range (length %s)' % (i, len(b) if hasattr(b, '__len__') else '?'), e)
+        except KeyError:
+            raise Raised('KeyError', 'key %r is not in the dictionary (keys %s)' % (i, sorted(map(str, b))[:8] if isinstance(b, dict) else '?'), e)
+        except IndexError:
+            raise Raised('IndexError', 'index %r out of range (length %s)' % (i, len(b) if hasattr(b, '__len__') else '?'), e)
         except TypeError:
             raise Violation('SK2', 'subscript of placeholder %r' % (b,), e)
 
@@ -826,6 +840,24 @@ class SK(object):
             raise Violation('SK2', 'iteration over placeholder %r' % (v,), node)
         if isinstance(v, Bag) and '__iter__' in v._a:
             return list(v._a['__iter__'])
+        if isinstance(v, Bag) and isinstance(v._cls, tuple):
+            # the iteration protocol of the class itself: __iter__ once, then __next__ until it raises StopIteration
+            fi_it = self.m.lookup(v._cls, '__iter__', 'methods')
+            if fi_it is None:
+                raise Violation('SK2', 'iteration over an object of %s.%s, which defines no __iter__' % v._cls, node)
+            it = self.call(fi_it, [v], {})
+            fi_nx = self.m.lookup(it._cls, '__next__', 'methods') or self.m.lookup(it._cls, 'next', 'methods') if isinstance(it, Bag) and isinstance(it._cls, tuple) else None
+            if fi_nx is None:
+                raise Violation('SK2', '__iter__ does not return an object with __next__', node)
+            out = []
+            for _ in range(100000):
+                try:
+                    out.append(self.call(fi_nx, [it], {}))
+                except Raised as r:
+                    if r.exc == 'StopIteration':
+                        break
+                    raise
+            return out
         return v
 
     def e_Call(self, e, env):
@@ -1007,6 +1039,8 @@ class SK(object):
         elif isinstance(n, ast.Return):
             raise Ret(None if n.value is None else self.ev(n.value, env))
         elif isinstance(n, ast.Raise):
+            if n.exc is not None and norm(n.exc).split('(')[0] == 'StopIteration':
+                raise Raised('StopIteration', 'StopIteration', n)         # the iteration protocol of the interpreted classes
             raise Violation('RAISE', 'explicit raise reached: %s' % norm(n)[:80], n)
         elif isinstance(n, ast.Break):
             raise Brk()
